@@ -20,7 +20,7 @@ RULE = (
     "re-registration (latest wins); every target is called and extract_since() from a callee checks hide / hide_line / pruned callee / replacement on exactly the frames running the registered code; "
     "IdentityDict vs a list-of-pairs model under 30 random get/set/del/pop/setdefault/popitem/iter/len/eq operations with equal-but-distinct keys. distinct = (tower, flags, elaborate kind, form) and dict-op sequences"
 )
-ASSUMPTIONS = ["the code that 'executes when the target is called' is recorded by the base function itself (sys._getframe().f_code)", "nested names are unique within their scope"]
+ASSUMPTIONS = ["the code that 'executes when the target is called' is recorded by the base function itself (sys._getframe().f_code)", "nested names are unique within their scope (siblings whose names extend or contain the wanted name do occur)"]
 REAL_VS_STUB = {"real": ["get_code, code_dispatch, IdentityDict, customize, elaborate_frame, extract_since"], "stub": ["generated towers / nestings", "model map id(code) -> latest hook", "list-of-pairs dict model"]}
 RARE_PROBES = ["hide_line_checked", "prune_checked", "replacement_checked", "equal_distinct_code", "decorator_form", "reregistered"]
 LEGS = [
@@ -297,7 +297,9 @@ def run(ctx):
     for d in range(depth):
         is_class = (d < depth - 1) and t.choose(3) == 1
         name = ("K%d" if is_class else "n%d") % d
-        lines.append("    " * ind + "def decoy%d(): return %d" % (d, d))
+        # decoy sibling defined first: an unrelated name, or one that contains / extends the wanted name
+        decoy = ("decoy%d" % d, name + "_x", "x_" + name, name + "0")[t.choose(4)]
+        lines.append("    " * ind + "def %s(): return %d" % (decoy, d))
         if is_class:
             lines.append("    " * ind + "class %s:" % name)
         else:
@@ -339,12 +341,13 @@ def run(ctx):
             raise Violation("c12_get_code_raised", "get_code(outer, *%r) raised %r" % (path, e), {"path": path})
         if gotn is not rec2[0]:
             raise Violation("c12_get_code_nested_wrong", "get_code(outer, *%r) is not the code object that ran" % (path,), {"path": path, "source": nsrc})
-        try:
-            get_code(outer, *(path[:-1] + ["nope"]))
-        except ValueError:
-            pass
-        else:
-            raise Violation("c12_get_code_nested_wrong", "get_code with a non-existent nested name did not raise ValueError", {})
+        for missing in ("nope", path[-1][:-1], path[-1] + "_"):
+            try:
+                get_code(outer, *(path[:-1] + [missing]))
+            except ValueError:
+                pass
+            else:
+                raise Violation("c12_get_code_nested_wrong", "get_code with a non-existent nested name (%r) did not raise ValueError" % missing, {})
 
     # ---- customize: flags x elaborate x form ----
     hide = t.choose(2) == 1
